@@ -315,6 +315,49 @@ def calls_for(pre: Circuit, tier: str, rng: random.Random) -> Iterator[Call]:
             exp_brepl, True,
         )
 
+    # batch_replace of two operations of the same cycle where the first
+    # replacement moves to another qudit set (slow path of replace: it may
+    # open a new cycle in front of the second target).  Reference: the two
+    # single replace calls (each checked on its own above) applied to the
+    # same two operations, located by identity after the first one.
+    by_cycle: dict[int, list] = {}
+    for ci, old in ops_here:
+        by_cycle.setdefault(ci, []).append(old)
+    for ci, olds in by_cycle.items():
+        for o1, o2 in itertools.permutations(olds, 2):
+            g2 = {1: HGate(), 2: CNOTGate()}.get(len(o2.location))
+            if g2 is None or not all(pre.radixes[q] == 2
+                                     for q in o2.location):
+                continue
+            for new1 in new_ops:
+                if o1.location[0] not in new1.location \
+                        or set(new1.location) == set(o1.location):
+                    continue
+                ref = pre.copy()
+                tgt2 = ref._circuit[ci][o2.location[0]]
+                try:
+                    ref.replace((ci, o1.location[0]), Operation(
+                        new1.gate, new1.location, new1.params))
+                    at = [k for k, row in enumerate(ref._circuit)
+                          if row[o2.location[0]] is tgt2]
+                    ref.replace((at[0], o2.location[0]),
+                                Operation(g2, o2.location))
+                except Exception:      # noqa: BLE001
+                    continue
+                want_tl = C.timelines(ref)
+                pts = [(ci, o1.location[0]), (ci, o2.location[0])]
+                ops_b = [Operation(new1.gate, new1.location, new1.params),
+                         Operation(g2, o2.location)]
+                yield Call(
+                    'batch_replace', (pts, [str(o) for o in ops_b],
+                                      'same cycle, first one relocates'),
+                    lambda c, pts=pts, ops_b=ops_b: c.batch_replace(
+                        list(pts), [Operation(o.gate, o.location, o.params)
+                                    for o in ops_b]),
+                    lambda pre_, post, res, want_tl=want_tl: eq_tl(
+                        post, want_tl, 'batch_replace(relocating)'), True,
+                )
+
     # ---- circuits as arguments ---------------------------------------------
     sub2 = Circuit(2)
     sub2.append_gate(HGate(), 0)
